@@ -126,7 +126,12 @@ func runSqlwNext(sc sqlwScenario) (string, []recCall) {
 
 // runSqlwCtx: with cancel=true the context is cancelled at call failAt (only the Context entry points)
 func runSqlwCtx(sc sqlwScenario, failAt int, cancel bool) (string, []recCall) {
-	st := &dbState{failAt: -1, exists: sc.exists, faultKind: faultKindNext}
+	return runSqlwCtx2(sc, failAt, cancel, false)
+}
+
+// runSqlwCtx2: keep=true — the context is cancelled while call failAt is in flight, and that call succeeds
+func runSqlwCtx2(sc sqlwScenario, failAt int, cancel, keep bool) (string, []recCall) {
+	st := &dbState{failAt: -1, exists: sc.exists, faultKind: faultKindNext, cancelKeep: keep}
 	ctx, cancelFn := context.WithCancel(context.Background())
 	defer cancelFn()
 	if cancel {
@@ -280,6 +285,15 @@ func genSqlw(r *Rng, id string, mode string) []string {
 				emitSqlw(e, sc, k, st, cs)
 				e.Tok("CANCEL")
 				lines = append(lines, e.Line(id+"c"+itoa(k), "SQLW"))
+			}
+			// cancellation arriving while a call is in flight that nevertheless succeeds (in particular the COMMIT):
+			// whatever the call then reports must match what was published
+			for k := 0; k < len(calls); k++ {
+				st, cs := runSqlwCtx2(sc, k, true, true)
+				e := NewEnc()
+				emitSqlw(e, sc, k, st, cs)
+				e.Tok("CANCEL")
+				lines = append(lines, e.Line(id+"k"+itoa(k), "SQLW"))
 			}
 		}
 	}
